@@ -2,7 +2,7 @@
 import ast
 
 from ..model import AnalysisError, dotted, unparse
-from ..util import FACTS, FACTS_I, U, enum_paths, walk_no_nested, is_yield_call, Yields
+from ..util import sym_env, sym_resolve, FACTS, FACTS_I, U, enum_paths, walk_no_nested, is_yield_call, Yields
 from ..paths import call_attr, call_name
 
 H = 'scales/loadbalancer/heap.py'
@@ -18,7 +18,8 @@ def heap_calls(ev):
   out = []
   for i, e in enumerate(ev):
     if e.kind == 'call' and call_name(e.node) in ('Heap.Swap', 'Heap.FixUp', 'Heap.FixDown'):
-      out.append((i, call_attr(e.node), [U(a).replace(' ', '') for a in e.node.args]))
+      env = sym_env(ev, i)
+      out.append((i, call_attr(e.node), [U(sym_resolve(a, env)).replace(' ', '') for a in e.node.args]))
   return out
 
 
@@ -217,15 +218,11 @@ def r3(ctx):
       ctx.ob('C03.R3', p, 'a node that left the heap is not repaired', not ops, 'heap ops on a removed node: %s' % ops, 'its index is -1: sifting it corrupts the heap')
     elif idle and ('self._size>1', True) in fs:
       seen.add('idle')
-      env = alias_env(ev, len(ev))
-      i_name = [k for k, v in env.items() if v == '%s.index' % node]
-      j_name = [k for k, v in env.items() if v.startswith('random.randint(')]
-      ok = bool(i_name) and bool(j_name)
-      if ok:
-        i_, j_ = i_name[0], j_name[0]
-        want = [('Swap', ['self._heap', i_, 'self._size']), ('FixDown', ['self._heap', i_, 'self._size-1']),
-                ('Swap', ['self._heap', j_, 'self._size']), ('FixUp', ['self._heap', j_]), ('FixUp', ['self._heap', 'self._size'])]
-        ok = ops == want and env[j_] == 'random.randint(1,self._size)'
+      i_ = '%s.index' % node
+      j_ = 'random.randint(1,self._size)'
+      want = [('Swap', ['self._heap', i_, 'self._size']), ('FixDown', ['self._heap', i_, 'self._size-1']),
+              ('Swap', ['self._heap', j_, 'self._size']), ('FixUp', ['self._heap', j_]), ('FixUp', ['self._heap', 'self._size'])]
+      ok = ops == want
       ctx.ob('C03.R3', p, 'idle node is moved out (Swap, FixDown over size-1) and re-inserted at a random slot (Swap, FixUp, FixUp)', ok,
              'idle re-insertion ops: %s' % ops, why + '; both nodes moved by the second Swap have to be sifted up')
     else:
@@ -264,10 +261,9 @@ def add_remove(ctx, rule='C03.R3'):
     n += 1
     env = alias_env(ev, len(ev))
     nd = [k for k, v in env.items() if v.startswith('self._FindNodeByEndpoint(')]
-    iname = [k for k, v in env.items() if nd and v == '%s.index' % nd[0]]
-    ok = bool(nd) and bool(iname)
+    ok = bool(nd)
     if ok:
-      i_ = iname[0]
+      i_ = 'self._FindNodeByEndpoint(%s).index' % r.params[1]
       ok = ops == [('Swap', ['self._heap', i_, 'self._size']), ('FixDown', ['self._heap', i_, 'self._size-1'])]
     pops = [i for i, e in enumerate(ev) if e.kind == 'call' and U(e.node.func) == 'self._heap.pop' and not e.node.args]
     dec = [i for i, e in enumerate(ev) if e.kind == 'stmt' and isinstance(e.node, ast.AugAssign) and U(e.node.target) == 'self._size' and isinstance(e.node.op, ast.Sub) and U(e.node.value) == '1']
@@ -279,7 +275,7 @@ def add_remove(ctx, rule='C03.R3'):
   ctx.floor(rule, 'remove paths', n, 1)
   fn = prog.func(H, 'HeapBalancerSink._FindNodeByEndpoint')
   t = U(fn.node).replace(' ', '')
-  ctx.ob(rule, fn, 'nodes are found by endpoint equality over the heap array', 'node.endpoint==%s' % fn.params[1] in t and 'enumerate(self._heap)' in t, '_FindNodeByEndpoint changed', why, nontrivial=False)
+  ctx.ob(rule, fn, 'nodes are found by endpoint equality over the heap array', '.endpoint==%s' % fn.params[1] in t and 'self._heap' in t, '_FindNodeByEndpoint changed', why, nontrivial=False)
 
 
 def r4(ctx):
@@ -351,7 +347,7 @@ def r5(ctx):
   if ok:
     Ls = ['2*%s' % i, '%s*2' % i, '%s<<1' % i]
     Rs = [x + '+1' for x in Ls]
-    nochild = any(('%s<%s' % (j, x) in t) or ('%s>%s' % (x, j) in t) for x in Ls)
+    nochild = any(('%s<%s' % (j, x) in t) or ('%s>%s' % (x, j) in t) or ('while%s>=%s:' % (j, x) in t) or ('while%s<=%s:' % (x, j) in t) for x in Ls)
     only_left = any('%s==%s' % (j, x) in t or '%s==%s' % (x, j) in t for x in Ls)
     pick = any('%s[%s]<%s[%s]' % (h, l, h, r) in t for l in Ls for r in Rs)
     # m = left if (only-left or left<right) else right
